@@ -33,7 +33,14 @@ fn order_project(rng: &mut Rng) -> Vec<(String, String)> {
         let pkg = rng.pick_str(&pkgs);
         let name = rng.pick_str(&["Foo", "Bar"]);
         let kind = rng.pick_str(&kinds);
-        files.push((format!("s{i}"), format!("package {pkg}; {kind} {name} {{ }}")));
+        // annotation parameters live in a HashMap: anything reported per parameter comes out in hash order
+        let ann = match rng.below(4) {
+            0 => String::new(),
+            1 => "@Backing(type=\"short\", size=2, signed=true, extra=1) ".to_string(),
+            2 => "@SuppressWarnings(value=\"x\", a=1, b=2, c=3) @JavaDerive(toString=true, equals=true, hash=1, x=2) ".to_string(),
+            _ => format!("@{}(p=1, q=2, r=\"s\", t=true) ", rng.pick_str(&["Backing", "VintfStability", "Unknown", "nullable"])),
+        };
+        files.push((format!("s{i}"), format!("package {pkg}; {ann}{kind} {name} {{ }}")));
     }
     // a file without a tree
     if rng.chance(1, 2) {
@@ -60,6 +67,9 @@ fn order_project(rng: &mut Rng) -> Vec<(String, String)> {
             let dir = rng.pick_str(&["", "in ", "out ", "inout "]);
             let code = if rng.chance(1, 2) { format!(" = {}", rng.below(3)) } else { String::new() };
             let name = if rng.chance(1, 3) { "same".to_string() } else { format!("m{k}") };
+            if rng.chance(1, 5) {
+                s.push_str("@UnsupportedAppUsage(maxTargetSdk=1, trackingBug=2, bogus=3, more=4) ");
+            }
             s.push_str(&format!("{}{t1} {name}({dir}{t2} x, {t1} y){code};{}", if rng.chance(1, 4) { "oneway " } else { "" }, if multi_line { "\n" } else { " " }));
             // recovered syntax errors between members: syntax-stage and validation diagnostics interleave
             if rng.chance(1, 4) {
